@@ -519,3 +519,12 @@ def run(ctx):
         c02.r1_layout(ctx, fields)
     else:
         ctx.lost("C02.R1", "Move getters (derived %d fields)" % len(fields))
+
+
+_run_before_parity = run
+
+
+def run(ctx):
+    _run_before_parity(ctx)
+    from . import hashparity
+    hashparity.run(ctx, "C06.R7")
